@@ -23,6 +23,17 @@ ASSUMPTIONS = ["histories are executed against the real runtime.guarded()/add_gu
                "iteration, the conjunction the effective guard VALUE must equal; error suppression = (conjunction false), LinComb.ONE is "
                "the guard, a false assertion is tolerated exactly in dead code; the triple after the loop = the triple before. Python "
                "oracle only (the block API has no model counterpart in C08)",
+               "a selection whose branches are FUNCTIONS, through the library's own if_then_else(cond, f, g) (events F: / FT: / FE: = both / only the "
+               "then / only the else branch a function; conditions secret boolean 0/1 and non-boolean, secret int, plain int), is a third way "
+               "of entering a region: the triple is probed around the call whichever way a branch function ends (normally, by a failing "
+               "operation, by an explicit raise - in the branch taken or in the one not taken -, caught by the caller or not), nested in and "
+               "around every other event; for the model such a history is read as guarded(c)(f)() followed by guarded(~c)(g)() with a "
+               "fresh condition wire for ~c, so it is compared on status and final triple (guard value, flag, value of ONE) only; a fixed family (harness/props/c08.py "
+               "selection_family) runs on every seed",
+               "histories run with the error-suppression mode SELECTED BY THE USER through pysnark.runtime.ignore_errors(True) before the first "
+               "region (configuration ign=1; a quarter of the random histories, the fixed families once more, every fifth block-API history, "
+               "a quarter of the `_breakif` histories): the flag is part of the triple and must be on again after every region; the model runs "
+               "the history from that initial state (execEv is total in the state)",
                "every guarded() region of a history is ONE decorator object guarded(cond) decorating ONE function; re-entry events activate "
                "that same decorator object again while it is active, either by recursion of the decorated function (R) or by decorating a "
                "callee with the same decorator object (RS), to any depth, around any other event (raises, failing operations, try/except, "
@@ -45,6 +56,16 @@ def gen_events(rnd, depth, allow_raw, budget, ing=0):
             k = rnd.choice(["L", "L", "L", "B", "I"])
             v = rnd.choice([0, 1, 1, 0, 1, 2, -1]) if rnd.random() < 0.15 else rnd.choice([0, 1])
             kind = "A" if allow_raw and rnd.random() < 0.3 else "G"
+            if kind == "G" and rnd.random() < 0.25:
+                # a selection whose branches are functions: if_then_else(cond, f, g) enters a region for f and one for g by itself
+                form = rnd.choice(["F", "F", "FT", "FE"])
+                if rnd.random() < 0.85: k = "B"
+                out.append(f"{form}:{k}:{v}(")
+                if form != "FE": out += gen_events(rnd, depth + 1, allow_raw, budget, ing)
+                out.append("/")
+                if form != "FT": out += gen_events(rnd, depth + 1, allow_raw, budget, ing)
+                out.append(")")
+                continue
             out.append(f"{kind}:{k}:{v}(")
             out += gen_events(rnd, depth + 1, allow_raw, budget, ing + (kind == "G"))
             out.append(")")
@@ -101,6 +122,64 @@ def reentries(toks):
         elif t == ")":
             st.pop()
     return False
+
+
+def has_selection(toks):
+    return any(t.startswith(("F:", "FT:", "FE:")) for t in toks)
+
+
+def model_tokens(toks):
+    """the history as the Lean model reads it: a selection with branch functions `F:B:c( T / E )` is `guarded(c)(f)()` followed by
+    `guarded(~c)(g)()` (branching.py), written `G:B:c( T ) G:B:1-c( E )`; the model allocates a second condition wire for ~c, so
+    such histories are compared on status and final triple only.  A condition that is no LinCombBool never reaches a branch
+    function: a secret int raises RuntimeError, a plain 0/1 returns the function object itself, another int raises ValueError."""
+    out = []
+    pos = 0
+
+    def seq(pos, stop):
+        res = []
+        while pos < len(toks) and toks[pos] not in stop:
+            t = toks[pos]
+            if t.startswith(("F:", "FT:", "FE:")):
+                form, k, c = t[:-1].split(":"); c = int(c)
+                a, pos = seq(pos + 1, (")", "/"))
+                b = []
+                if pos < len(toks) and toks[pos] == "/":
+                    b, pos = seq(pos + 1, (")",))
+                pos += 1
+                if k == "B" and c in (0, 1):
+                    if form in ("F", "FT"): res += [f"G:B:{c}("] + a + [")"]
+                    if form in ("F", "FE"): res += [f"G:B:{1 - c}("] + b + [")"]
+                elif k == "I" and c in (0, 1):
+                    pass
+                else:
+                    res.append("!")
+            elif t.endswith("("):
+                body, pos = seq(pos + 1, (")",))
+                res += [t] + body + [")"]; pos += 1
+            else:
+                res.append(t); pos += 1
+        return res, pos
+    return seq(0, ())[0]
+
+
+def selection_family():
+    """small histories through if_then_else with branch functions, run on every seed (with and without the user's ignore mode):
+    condition value x which branch is a function x how the branch function ends (normally, failing operation, explicit raise) x
+    caught by the caller or not x alone / inside a guarded region / followed by further events"""
+    out = []
+    for v in (0, 1):
+        for form in ("F", "FT", "FE"):
+            for end in ["", "az:0", "lt:1:2", "!", "!b", "lt:5:300", "az:3"]:
+                e = [end] if end else []
+                t_ = e if form != "FE" else []; f_ = e if form != "FT" else []
+                sel = [f"{form}:B:{v}("] + t_ + ["/"] + f_ + [")"]
+                out.append(sel)
+                out.append(["T("] + sel + [")", "az:0", "lt:1:2"])
+                out.append(["G:L:1(", "T("] + sel + [")", "lt:1:2", ")"])
+                out.append(["G:B:1("] + sel + [")", "az:0"])
+                out.append(["T(", f"F:B:{v}(", "G:L:0("] + e + [")", "/", "lt:1:2", ")", ")", "lt:2:1"])
+    return out
 
 
 def reentrant_family():
@@ -221,7 +300,9 @@ def block_histories(ctx, ex, extended):
     rnd = ctx.rnd
     n = ctx.n(500, 8000) * (3 if extended else 1)
     jobs = [gen_block_history(rnd) for _ in range(n)]
-    lines = [f"BG|bg{i}|p={common.BN128},bl=8|" + json.dumps(prog) for i, (prog, _) in enumerate(jobs)]
+    for i, (prog, meta) in enumerate(jobs):
+        meta["ign"] = 1 if i % 5 == 4 else 0          # every fifth history runs after the user's ignore_errors(True)
+    lines = [f"BG|bg{i}|p={common.BN128},bl=8{',ign=1' if meta['ign'] else ''}|" + json.dumps(prog) for i, (prog, meta) in enumerate(jobs)]
     outs = common.run_workers(lines, script="worker_blockguard.py", nproc=4)
     for line, (prog, meta), o in zip(lines, jobs, outs):
         f = o.split("|", 7)
@@ -229,7 +310,8 @@ def block_histories(ctx, ex, extended):
             raise common.Infra("worker_blockguard: " + o[:400])
         ex.evaluations += 1
         rep = json.loads(f[7])
-        ex.count(f"block:{meta['form']}:{meta['flavour']}:wrap-{meta['wrap']}")
+        ex.count(f"block:{meta['form']}:{meta['flavour']}:wrap-{meta['wrap']}"); ex.count(f"block:user-ignore-mode:{'on' if meta['ign'] else 'off'}")
+        imode = "user-on" if meta["ign"] else "off"
         first_bad = None
         for pr in rep["probes"]:
             err = next((c for k, c in ERRCLASS if pr["exc"] and k in pr["exc"]), "none" if not pr["exc"] else "other")
@@ -248,14 +330,15 @@ def block_histories(ctx, ex, extended):
                 ex.violations.append(Violation({"clause": "restore-final", "via": "raw", "api": "block-statements", "raised_by": "body"}, what, payload))
             else:
                 ex.violations.append(Violation({"clause": "restore", "via": "block-closing-call" if pr["tag"] == "closing-call" else "block-" + pr["tag"],
-                                                "call": pr["call"], "error": err}, what, payload))
+                                                "call": pr["call"], "error": err, "ignore_mode": imode}, what, payload))
             continue        # everything after the first unrestored probe runs in a polluted state
-        if meta["live"] and rep["later"] and rep["later"][0] != "rejected":
+        if meta["live"] and not meta["ign"] and rep["later"] and rep["later"][0] != "rejected":
             ex.violations.append(Violation({"clause": "later-assertion", "via": "block-closing-call"},
                                            "block API: after the caught error a false assertion PrivVal(5).assert_eq(7) at a live level is accepted", payload))
-        if not (f[2] == "G=N" and f[3] == "IGN=0"):
-            ex.violations.append(Violation({"clause": "restore-final", "via": "block-closing-call", "status": f[1].split(":")[0]},
-                                           f"block API: the history ends with status {f[1]} and guard state {f[2]} {f[3]}", payload))
+        if not (f[2] == "G=N" and f[3] == f"IGN={meta['ign']}"):
+            ex.violations.append(Violation({"clause": "restore-final", "via": "block-closing-call", "status": f[1].split(":")[0], "ignore_mode": imode},
+                                           f"block API: the history ends with status {f[1]} and guard state {f[2]} {f[3]}"
+                                           + (" (run after the user's ignore_errors(True))" if meta["ign"] else ""), payload))
         if len(ex.samples) < 10 and meta["flavour"] == "bookkeeping" and any(p_["tag"] == "closing-call" for p_ in rep["probes"]) \
                 and not any(s_.startswith("BG|") for s_ in ex.samples):
             ex.samples.append(line)
@@ -313,7 +396,12 @@ def conjunction_histories(ctx, ex, extended):
         direct = rnd.choice([None, None, 0, 1])
         jobs.append((breakif_program(loop, wrap, place, w, d, c, iters=rnd.choice([1, 2, 3]), direct=direct, rnd=rnd),
                      {"loop": loop, "wrap": wrap, "place": place, "wdc": f"{w}{d}{c}", "direct": direct}))
-    lines = [f"BG|cj{i}|p={common.BN128},bl=8|" + json.dumps(prog) for i, (prog, _) in enumerate(jobs)]
+    nfam = len(breakif_family())
+    for i, (prog, meta) in enumerate(jobs):
+        meta["ign"] = 1 if i >= nfam and i % 4 == 3 else 0
+    # the fixed family once more after the user's ignore_errors(True) (every third member)
+    jobs += [(prog, dict(meta, ign=1)) for prog, meta in jobs[:nfam:3]]
+    lines = [f"BG|cj{i}|p={common.BN128},bl=8{',ign=1' if meta['ign'] else ''}|" + json.dumps(prog) for i, (prog, meta) in enumerate(jobs)]
     outs = common.run_workers(lines, script="worker_blockguard.py", nproc=4)
     for line, (prog, meta), o in zip(lines, jobs, outs):
         f = o.split("|", 7)
@@ -321,11 +409,14 @@ def conjunction_histories(ctx, ex, extended):
             raise common.Infra("worker_blockguard: " + o[:400])
         ex.evaluations += 1
         rep = json.loads(f[7])
-        ex.distinct.add(("breakif", json.dumps(prog)))
+        uign = bool(meta["ign"])
+        ex.count(f"breakif:user-ignore-mode:{'on' if uign else 'off'}")
+        ex.distinct.add(("breakif", json.dumps(prog), uign))
         outcome = "accepted" if "accepted" in rep["breakif"][:1] else "refused" if rep["breakif"] else "not-reached"
         ex.count(f"breakif:{meta['loop']}:{meta['place']}:wrap-{meta['wrap']}:{outcome}")
         payload = {"line": line, "source": rep["source"], "conjunction_probes": rep["cprobes"], "breakif": rep["breakif"], "status": f[1]}
-        sig = {"clause": "conjunction", "via": "block-breakif", "place": meta["place"], "loop": meta["loop"].split("-")[0]}
+        sig = {"clause": "conjunction", "via": "block-breakif", "place": meta["place"], "loop": meta["loop"].split("-")[0],
+               "ignore_mode": "user-on" if uign else "off"}
         if f[1] != "ok":
             ex.violations.append(Violation(dict(sig, dev="raises", error=f[1].split(":")[-1]),
                                            f"block API: `_breakif` inside the {meta['place']} of an `_if` within a {meta['loop']} loop "
@@ -336,9 +427,11 @@ def conjunction_histories(ctx, ex, extended):
         for pr in rep["cprobes"]:
             dead = pr["expect"] == 0
             if pr["guard"] != pr["expect"]: bad = ("guard", pr, f"effective guard value {pr['guard']}, conjunction of the enclosing conditions {pr['expect']}")
-            elif pr["ign"] != dead: bad = ("error-suppression", pr, f"error suppression is {pr['ign']} where the conjunction is {pr['expect']}")
+            elif pr["ign"] != (dead or uign):
+                bad = ("error-suppression", pr, f"error suppression is {pr['ign']} where the conjunction is {pr['expect']}"
+                                                + (" and the user has switched it on through ignore_errors(True)" if uign else ""))
             elif not pr["one_is_guard"]: bad = ("one", pr, "LinComb.ONE is not the guard in effect")
-            elif (pr["false_assertion"] == "tolerated") != dead:
+            elif (pr["false_assertion"] == "tolerated") != (dead or uign):
                 bad = ("false-assertion", pr, f"a false assertion is {pr['false_assertion']} where the conjunction is {pr['expect']}")
             if bad: break
         if bad:
@@ -354,7 +447,7 @@ def conjunction_histories(ctx, ex, extended):
             ex.violations.append(Violation(dict(sig, quantity="restore", breakif=outcome),
                                            f"block API: after the loop with a `_breakif` ({outcome}) in an {meta['place']} the guard triple is "
                                            f"{pr['after']} (before the loop: {pr['before']})", payload))
-        elif not (f[2] == "G=N" and f[3] == "IGN=0"):
+        elif not (f[2] == "G=N" and f[3] == f"IGN={int(uign)}"):
             ex.violations.append(Violation(dict(sig, quantity="restore-final", breakif=outcome),
                                            f"block API: the history ends with guard state {f[2]} {f[3]}", payload))
 
@@ -372,16 +465,23 @@ def explore(ctx, extended=False, focus=None):
     n = ctx.n(2000, 60000) * (4 if extended else 1)
     lines = []
     hist = []
-    fixed = reentrant_family()
+    fam = reentrant_family(); sel = selection_family()
+    # the fixed families run with error checking on, and once more after the USER switched it off (ignore_errors(True) before the
+    # history): the user's mode is part of the triple every region must bring back
+    fixed = [(t, 0) for t in fam + sel] + [(t, 1) for t in fam[::3] + sel]
+    mlines = []
     for i in range(len(fixed) + n):
         allow_raw = i % 4 == 3
         if i < len(fixed):
-            toks, allow_raw = fixed[i], False
+            (toks, ign0), allow_raw = fixed[i], False
         else:
             toks = gen_events(ctx.rnd, 0, allow_raw, [ctx.rnd.randrange(3, 14)])
+            ign0 = 1 if ctx.rnd.random() < 0.25 else 0
         bl = ctx.rnd.choice([4, 8, 8, 16])
-        lines.append(f"H|h{i}|p={common.BN128},bl={bl}|{' '.join(toks)}")
-        hist.append((toks, allow_raw))
+        cfg = f"p={common.BN128},bl={bl}" + (",ign=1" if ign0 else "")
+        lines.append(f"H|h{i}|{cfg}|{' '.join(toks)}")
+        mlines.append(f"H|h{i}|{cfg}|{' '.join(model_tokens(toks))}")
+        hist.append((toks, allow_raw, ign0))
     # pairs: the same history with different guard values must emit the same number of wires and constraints
     pairs = []
     for i in range(n // 4):
@@ -407,8 +507,8 @@ def explore(ctx, extended=False, focus=None):
                                            f"the same nesting of regions emits {fa[5]},{fa[6]} for one choice of guard values and {fb[5]},{fb[6]} "
                                            f"for another: the effective guard is not the conjunction gadget of all enclosing conditions",
                                            {"line": la, "line_b": lb}))
-    ml = common.lean_driver(lines)
-    for line, (toks, raw), a, b in zip(lines, hist, py, ml):
+    ml = common.lean_driver(mlines)
+    for line, (toks, raw, ign0), a, b in zip(lines, hist, py, ml):
         ex.evaluations += 1
         fa = a.split("|")
         if fa[1] == "harness-error":
@@ -420,12 +520,23 @@ def explore(ctx, extended=False, focus=None):
         ex.count(f"depth:{md}"); ex.count(f"end:{fa[1]}"); ex.count("stream:" + ("mixed-raw" if raw else "guarded-only"))
         reent = reentries(toks)
         ex.count("re-entry:" + ("yes" if reent else "no"))
+        selh = has_selection(toks)
+        ex.count("selection-with-branch-functions:" + ("yes" if selh else "no")); ex.count("user-ignore-mode:" + ("on" if ign0 else "off"))
+        imode = "user-on" if ign0 else "off"
         if md > 0:
             ex.distinct.add(" ".join(toks))
         # wire/constraint counts are compared only where no exception was raised or swallowed (the model drops the
         # partial allocations of a failing operation, the real run keeps them)
-        k = 7 if (fa[1] == "ok" and "T(" not in toks) else 5
-        if fa[:k] != b.split("|")[:k]:
+        k = 7 if (fa[1] == "ok" and "T(" not in toks and not selh) else 5
+        fb = b.split("|")
+        if selh:
+            # the model's reading of a selection allocates one more condition wire (for ~c): wire numbers in a guard that is still
+            # installed at the end (bare add_guard regions after it) are shifted; status, guard VALUE, flag and ONE's value are compared
+            strip = lambda t: t.split(":")[0] if "=" in t else t
+            fa_c, fb_c = [strip(t) for t in fa[:5]], [strip(t) for t in fb[:5]]
+        else:
+            fa_c, fb_c = fa[:k], fb[:k]
+        if fa_c != fb_c:
             ex.disagreements.append({"case": line, "impl": "|".join(fa[:7])[:300], "model": b[:300]})
         else:
             ex.traces_validated += 1
@@ -435,13 +546,19 @@ def explore(ctx, extended=False, focus=None):
             # decorator re-entered while it was active; `plain:` = a single activation of its decorator
             for entry in bad.split(" ;; "):
                 tag = entry.split(":", 1)[0]
-                ex.violations.append(Violation({"clause": "restore", "via": "guarded", "reentrant": tag == "reentrant"},
-                                               f"guard triple not restored {entry.split(': ', 1)[-1][:260]}", {"line": line}))
-        final_dirty = not (fa[2] == "G=N" and fa[3] == "IGN=0")
+                if tag == "selection":
+                    sig = {"clause": "restore", "via": "if_then_else-branch-function", "ignore_mode": imode}
+                else:
+                    sig = {"clause": "restore", "via": "guarded", "reentrant": tag == "reentrant", "ignore_mode": imode}
+                ex.violations.append(Violation(sig, f"guard triple not restored {entry.split(': ', 1)[-1][:260]}"
+                                                    + (" [history run after the user's ignore_errors(True)]" if ign0 else ""), {"line": line}))
+        final_dirty = not (fa[2] == "G=N" and fa[3] == f"IGN={ign0}")
         if final_dirty:
             has_raw = any(t.startswith("A:") for t in toks)
-            ex.violations.append(Violation({"clause": "restore-final", "via": "raw" if has_raw else "guarded", "reentrant": reent},
-                                           f"after the whole history the guard state is {fa[2]} {fa[3]}", {"line": line}))
+            ex.violations.append(Violation({"clause": "restore-final", "via": "raw" if has_raw else "if_then_else-branch-function" if selh else "guarded",
+                                            "reentrant": reent, "ignore_mode": imode},
+                                           f"after the whole history the guard state is {fa[2]} {fa[3]}"
+                                           + (f" (the user had selected IGN={ign0} before it)" if ign0 else ""), {"line": line}))
         if md >= 2 and (len(ex.samples) < 3 or (len(ex.samples) < 8 and int(fa[0][1:]) >= len(fixed))):
             ex.samples.append(line.split("|", 2)[2])
     block_histories(ctx, ex, extended)
